@@ -168,7 +168,7 @@ pub fn eval(expr: Node) -> Result<f64, Box<dyn error::Error>> {
                 for arg in <Vec<Node> as Clone>::clone(&args).into_iter() {
                     #[cfg(feature = "verif_hooks")]
                     crate::verif_hooks::tick();
-                    result = eval(arg).unwrap().min(result);
+                    result = eval(arg)?.min(result);
                 }
                 Ok(result)
             } else {
@@ -184,7 +184,7 @@ pub fn eval(expr: Node) -> Result<f64, Box<dyn error::Error>> {
                 for arg in <Vec<Node> as Clone>::clone(&args).into_iter() {
                     #[cfg(feature = "verif_hooks")]
                     crate::verif_hooks::tick();
-                    result = eval(arg).unwrap().max(result);
+                    result = eval(arg)?.max(result);
                 }
                 Ok(result)
             } else {
@@ -199,7 +199,7 @@ pub fn eval(expr: Node) -> Result<f64, Box<dyn error::Error>> {
             for arg in <Vec<Node> as Clone>::clone(&args).into_iter() {
                 #[cfg(feature = "verif_hooks")]
                 crate::verif_hooks::tick();
-                result += eval(arg).unwrap();
+                result += eval(arg)?;
             }
             let len = args.len() as f64;
             Ok(result / len)
@@ -209,9 +209,10 @@ pub fn eval(expr: Node) -> Result<f64, Box<dyn error::Error>> {
             for arg in <Vec<Node> as Clone>::clone(&args).into_iter() {
                 #[cfg(feature = "verif_hooks")]
                 crate::verif_hooks::tick();
-                results.push(eval(arg).unwrap());
+                results.push(eval(arg)?);
             }
-            results.sort_by(|a, b| a.partial_cmp(b).unwrap());
+            results.sort_by(|a, b| a.partial_cmp(b)
+                    .unwrap_or_else(|| a.is_nan().cmp(&b.is_nan())));
             let len = results.len();
             if len % 2 == 0 {
                 Ok((results[len >> 1] + results[(len >> 1) - 1]) / 2.0)
